@@ -1044,10 +1044,10 @@ theorem piLoop_result (m : MDP) (rep : Rep) (horizon : Nat) (tol : Rat) :
       rw [hm] at hd2
       exact hd2
 
-/-- an action that receives weight from `greedyRow` passed the library's `checkEqualGeneral` test against the scanned maximum -/
-theorem greedyRow_support (A : Nat) (q : Nat → Rat) (a : Nat) (h : greedyRow A q a ≠ 0) :
+/-- an action that receives weight from the as-found `getPolicy` scan passed the library's `checkEqualGeneral` test against the scanned maximum -/
+theorem greedyRow_support (A : Nat) (q : Nat → Rat) (a : Nat) (h : greedyRowScan A q a ≠ 0) :
     checkEqualGeneral (q a) (greedyScan q (A - 1)).1 = true := by
-  unfold greedyRow at h
+  unfold greedyRowScan at h
   by_contra hc
   simp [hc] at h
 
@@ -1347,8 +1347,8 @@ theorem greedyScan_spec (q : Nat → Rat) (B : Rat) : ∀ n, (∀ i, i ≤ n →
           subst this; linarith [not_lt.mp h2, hsl B hB]
 
 /-- a positively weighted action of a greedy row is within twice the tie slack of the row maximum -/
-theorem greedyRow_near_max (A : Nat) (hA : 0 < A) (q : Nat → Rat) (B : Rat) (hb : ∀ i, i < A → |q i| ≤ B) (a : Nat)
-    (h : greedyRow A q a ≠ 0) : maxTo (A - 1) q - 2 * tieSlack B ≤ q a := by
+theorem greedyRowScan_near_max (A : Nat) (hA : 0 < A) (q : Nat → Rat) (B : Rat) (hb : ∀ i, i < A → |q i| ≤ B) (a : Nat)
+    (h : greedyRowScan A q a ≠ 0) : maxTo (A - 1) q - 2 * tieSlack B ≤ q a := by
   have hb' : ∀ i, i ≤ A - 1 → |q i| ≤ B := fun i hi => hb i (by omega)
   obtain ⟨⟨j, hj, hjm⟩, _, _, hle⟩ := greedyScan_spec q B (A - 1) hb'
   have hsup := greedyRow_support A q a h
@@ -1371,17 +1371,148 @@ theorem greedyScan_count (q : Nat → Rat) : ∀ n, 1 ≤ (greedyScan q n).2 ∧
       · simp
       · omega
 
-/-- entries of a greedy row are 0 or 1/c for one count c ∈ [1, A] -/
-theorem greedyRow_form (A : Nat) (hA : 0 < A) (q : Nat → Rat) :
-    ∃ c : Nat, 1 ≤ c ∧ c ≤ A ∧ ∀ a, greedyRow A q a = 0 ∨ greedyRow A q a = 1 / (c : Rat) := by
+/-- entries of an as-found greedy row are 0 or 1/c for one count c ∈ [1, A] -/
+theorem greedyRowScan_form (A : Nat) (hA : 0 < A) (q : Nat → Rat) :
+    ∃ c : Nat, 1 ≤ c ∧ c ≤ A ∧ ∀ a, greedyRowScan A q a = 0 ∨ greedyRowScan A q a = 1 / (c : Rat) := by
   obtain ⟨c1, c2⟩ := greedyScan_count q (A - 1)
   refine ⟨(greedyScan q (A - 1)).2, c1, by omega, ?_⟩
   intro a
-  unfold greedyRow
+  unfold greedyRowScan
   simp only
   split
   · exact Or.inr rfl
   · exact Or.inl rfl
+
+/-! ### the repaired `getPolicy` (true maximum first): every row is a distribution, for every Q -/
+
+theorem checkEqualGeneral_self (x : Rat) : checkEqualGeneral x x = true := by
+  have h0 : absR (x - x) ≤ AITB.Gen.equalToleranceSmall := by
+    rw [sub_self, absR_eq, abs_zero]; exact le_of_lt tolSmall_pos
+  unfold checkEqualGeneral checkEqualSmall
+  rw [decide_eq_true h0]; rfl
+
+theorem countTo_le (p : Nat → Bool) : ∀ n, countTo n p ≤ n := by
+  intro n
+  induction n with
+  | zero => simp [countTo]
+  | succ n ih => simp only [countTo]; split <;> omega
+
+theorem countTo_pos (p : Nat → Bool) : ∀ n i, i < n → p i = true → 1 ≤ countTo n p := by
+  intro n
+  induction n with
+  | zero => intro i hi; omega
+  | succ n ih =>
+    intro i hi hp
+    simp only [countTo]
+    by_cases h : i = n
+    · subst h; simp [hp]
+    · have := ih i (by omega) hp; omega
+
+/-- Σ_{i<n} (if p i then c else 0) = #{i<n | p i} · c -/
+theorem sumTo_indicator_count (p : Nat → Bool) (c : Rat) : ∀ n, sumTo n (fun i => if p i then c else 0) = (countTo n p : Rat) * c := by
+  intro n
+  induction n with
+  | zero => simp [sumTo, countTo]
+  | succ n ih =>
+    simp only [sumTo, countTo, ih]
+    by_cases h : p n
+    · simp [h]; ring
+    · simp [h]
+
+/-- the count of the repaired row is between 1 and A: the maximum is an entry and equals itself -/
+theorem greedyRowMax_count (A : Nat) (hA : 0 < A) (q : Nat → Rat) :
+    1 ≤ countTo A (fun i => checkEqualGeneral (q i) (maxTo (A - 1) q)) ∧ countTo A (fun i => checkEqualGeneral (q i) (maxTo (A - 1) q)) ≤ A := by
+  refine ⟨?_, countTo_le _ A⟩
+  obtain ⟨i, hi, hm⟩ := maxTo_attained (A - 1) q
+  exact countTo_pos _ A i (by omega) (by simp only [hm]; exact checkEqualGeneral_self (q i))
+
+/-- **greedyRowMax_sum_one.**  The repaired `getPolicy` row sums to exactly one for every Q row of every size A ≥ 1 (no separation
+    hypothesis on the entries: chains a≈b≈c with a≉c included). -/
+theorem greedyRowMax_sum_one (A : Nat) (hA : 0 < A) (q : Nat → Rat) : sumTo A (greedyRowMax A q) = 1 := by
+  obtain ⟨c1, _⟩ := greedyRowMax_count A hA q
+  have hc : ((countTo A (fun i => checkEqualGeneral (q i) (maxTo (A - 1) q)) : Nat) : Rat) ≠ 0 := by
+    have : (0 : Rat) < ((countTo A (fun i => checkEqualGeneral (q i) (maxTo (A - 1) q)) : Nat) : Rat) := by exact_mod_cast c1
+    exact ne_of_gt this
+  have e : greedyRowMax A q = fun a => if (fun i => checkEqualGeneral (q i) (maxTo (A - 1) q)) a
+      then 1 / ((countTo A (fun i => checkEqualGeneral (q i) (maxTo (A - 1) q)) : Nat) : Rat) else 0 := by
+    funext a; simp only [greedyRowMax]
+  rw [e, sumTo_indicator_count]
+  field_simp
+
+theorem greedyRowMax_nonneg (A : Nat) (hA : 0 < A) (q : Nat → Rat) (a : Nat) : 0 ≤ greedyRowMax A q a := by
+  obtain ⟨c1, _⟩ := greedyRowMax_count A hA q
+  unfold greedyRowMax
+  simp only
+  split
+  · have : (0 : Rat) < ((countTo A (fun i => checkEqualGeneral (q i) (maxTo (A - 1) q)) : Nat) : Rat) := by exact_mod_cast c1
+    exact le_of_lt (one_div_pos.mpr this)
+  · exact le_refl 0
+
+theorem greedyRowMax_form (A : Nat) (hA : 0 < A) (q : Nat → Rat) :
+    ∃ c : Nat, 1 ≤ c ∧ c ≤ A ∧ ∀ a, greedyRowMax A q a = 0 ∨ greedyRowMax A q a = 1 / (c : Rat) := by
+  obtain ⟨c1, c2⟩ := greedyRowMax_count A hA q
+  refine ⟨_, c1, c2, ?_⟩
+  intro a
+  unfold greedyRowMax
+  simp only
+  split
+  · exact Or.inr rfl
+  · exact Or.inl rfl
+
+/-- a weighted action of the repaired row is within ONE tie slack of the true row maximum -/
+theorem greedyRowMax_near_max (A : Nat) (hA : 0 < A) (q : Nat → Rat) (B : Rat) (hb : ∀ i, i < A → |q i| ≤ B) (a : Nat)
+    (h : greedyRowMax A q a ≠ 0) : maxTo (A - 1) q - tieSlack B ≤ q a := by
+  have hsup : checkEqualGeneral (q a) (maxTo (A - 1) q) = true := by
+    unfold greedyRowMax at h
+    by_contra hc
+    simp [hc] at h
+  obtain ⟨i, hi, hm⟩ := maxTo_attained (A - 1) q
+  have hmb : |maxTo (A - 1) q| ≤ B := by rw [hm]; exact hb i (by omega)
+  have h1 := checkEqualGeneral_bound _ _ B hmb hsup
+  rw [abs_le] at h1
+  linarith [h1.1]
+
+/-- whichever shape the source has: entries of a greedy row are 0 or 1/c for one count c ∈ [1, A] -/
+theorem greedyRow_form (A : Nat) (hA : 0 < A) (q : Nat → Rat) :
+    ∃ c : Nat, 1 ≤ c ∧ c ≤ A ∧ ∀ a, greedyRow A q a = 0 ∨ greedyRow A q a = 1 / (c : Rat) := by
+  unfold greedyRow
+  split
+  · exact greedyRowMax_form A hA q
+  · exact greedyRowScan_form A hA q
+
+/-- whichever shape the source has: a positively weighted action is within twice the tie slack of the row maximum -/
+theorem greedyRow_near_max (A : Nat) (hA : 0 < A) (q : Nat → Rat) (B : Rat) (hb : ∀ i, i < A → |q i| ≤ B) (a : Nat)
+    (h : greedyRow A q a ≠ 0) : maxTo (A - 1) q - 2 * tieSlack B ≤ q a := by
+  unfold greedyRow at h
+  split at h
+  · have h1 := greedyRowMax_near_max A hA q B hb a h
+    obtain ⟨i, hi, hm⟩ := maxTo_attained (A - 1) q
+    have hB : 0 ≤ B := le_trans (abs_nonneg _) (hb i (by omega))
+    have : 0 ≤ tieSlack B := by
+      unfold tieSlack
+      have h2 := mul_nonneg tolGeneral_nonneg hB
+      linarith [tolSmall_pos]
+    linarith
+  · exact greedyRowScan_near_max A hA q B hb a h
+
+/-- **greedyRow_valid_of_trueMax.**  Once the source has the repaired shape (`Gen.C01.greedyTrueMaxFirst`, fixes/C01-3) the greedy matrix of
+    EVERY Q-function is a stochastic matrix — the hypothesis `hvalid` of `policyIteration_chain` is discharged for all inputs. -/
+theorem greedyRow_valid_of_trueMax (hfix : AITB.Gen.C01.greedyTrueMaxFirst = true) (A : Nat) (hA : 0 < A) (q : Nat → Rat) :
+    (∀ a, 0 ≤ greedyRow A q a) ∧ sumTo A (greedyRow A q) = 1 := by
+  have e : greedyRow A q = greedyRowMax A q := by funext a; simp [greedyRow, hfix]
+  rw [e]
+  exact ⟨greedyRowMax_nonneg A hA q, greedyRowMax_sum_one A hA q⟩
+
+/-- the as-found scan: a chain a ≈ b ≈ c with a ≉ c, ascending by index, gets weight 1 on b and on c — the row sums to 2.
+    (test on literals; this is harness case 7 and the Q rows PolicyIteration meets in harness case 3) -/
+def chainRow : Nat → Rat := fun a => if a = 0 then 0 else if a = 1 then 9 / 10000000 else 18 / 10000000
+
+theorem greedyRowScan_chain_counterexample : sumTo 3 (greedyRowScan 3 chainRow) = 2 := by
+  norm_num [sumTo, greedyRowScan, greedyScan, chainRow, checkEqualGeneral, checkEqualSmall, absR, minR,
+    AITB.Gen.equalToleranceSmall, AITB.Gen.equalToleranceGeneral]
+
+/-- the same row under the repaired shape -/
+example : sumTo 3 (greedyRowMax 3 chainRow) = 1 := greedyRowMax_sum_one 3 (by norm_num) chainRow
 
 /-! ### discreteness: two greedy rows that agree entrywise within equalToleranceSmall are equal -/
 
@@ -1628,6 +1759,42 @@ theorem policyIteration_chain (m : MDP) (rep : Rep) (hrep : RepOK m rep) (hA : 0
     rw [bellman_congr m hVeq s, hVeq s hs]
     exact hb
 
+
+/-- **policyIteration_chain_fixed.**  With the repaired `getPolicy` in the source the coherence hypothesis disappears: for EVERY MDP,
+    horizon and tolerance, if the modelled loop terminates then `V = max_a Q` of the returned Q satisfies the optimality equation within
+    γ(ε + 2·tieSlack B) (B any bound on |Q|), ε the last sweep's variation. -/
+theorem policyIteration_chain_fixed (hfix : AITB.Gen.C01.greedyTrueMaxFirst = true)
+    (m : MDP) (rep : Rep) (hrep : RepOK m rep) (hA : 0 < m.A) (hγ0 : 0 ≤ m.γ) (hT : ValidT m)
+    (h : Nat) (hh : 0 < h) (tol : Rat) (htol : useTolerance tol = false ∨ 0 < tol)
+    (hA2 : (m.A : Rat) * m.A * AITB.Gen.equalToleranceSmall < 1)
+    (fuel : Nat) (st : PIState) (hres : policyIteration m rep h tol fuel = some st)
+    (B : Rat) (hB : ∀ s a, s < m.S → a < m.A → |st.qfun.get s a| ≤ B) :
+    ∃ ε : Rat, 0 ≤ ε ∧
+      ∀ s, s < m.S → |bellman m (piValues m st.qfun) s - piValues m st.qfun s| ≤ m.γ * (ε + 2 * tieSlack B) := by
+  have hvalid : ValidPi m (greedyPolicy m.S m.A st.qfun).get := by
+    refine ⟨?_, ?_⟩
+    · intro s a
+      by_cases hs : s < m.S
+      · by_cases ha : a < m.A
+        · unfold greedyPolicy
+          rw [mkMat_get _ hs ha]
+          exact (greedyRow_valid_of_trueMax hfix m.A hA (st.qfun.get s)).1 a
+        · simp [greedyPolicy, mkMat, Mat.get, Array.getD, hs, ha]
+      · simp [greedyPolicy, mkMat, Mat.get, Array.getD, hs]
+    · intro s hs
+      rw [← (greedyRow_valid_of_trueMax hfix m.A hA (st.qfun.get s)).2]
+      apply sumTo_congr
+      intro a ha
+      unfold greedyPolicy
+      rw [mkMat_get _ hs ha]
+  obtain ⟨prev, _, ε, hε, _, hall⟩ := policyIteration_chain m rep hrep hA hγ0 hT h hh tol htol hA2 fuel st hres hvalid
+  refine ⟨ε, hε, ?_⟩
+  apply hall (2 * tieSlack B)
+  intro s a hs ha hne
+  unfold greedyPolicy at hne
+  rw [mkMat_get _ hs ha] at hne
+  unfold piValues
+  exact greedyRow_near_max m.A hA (st.qfun.get s) B (fun i hi => hB s i hs hi) a hne
 
 /-! ### planners agree, without assuming that a fixed point exists -/
 
@@ -2049,7 +2216,11 @@ theorem sites_match_model :
     AITB.Gen.C01.lpSites = ["objUniform", "minimise", "rowEigen", "rowGeneric", "plusOne", "GE", "assembleQ"] ∧
     AITB.Gen.C01.bellmanInplaceIsMaxCoeffOverActions = true ∧
     AITB.Gen.C01.computeQSites = ["irGeneric", "qEigen", "qGeneric"] ∧
-    AITB.Gen.C01.greedySites = ["init", "scanFrom1", "tieGeneral", "greater", "setMax", "reset", "fillFrom0", "tieGeneral2", "recip", "zero"] ∧
+    AITB.Gen.C01.greedySites = (if AITB.Gen.C01.greedyTrueMaxFirst then ["init", "trueMax", "count0", "countTies", "fillFrom0", "tieGeneral2", "recip", "zero"]
+      else ["init", "scanFrom1", "tieGeneral", "greater", "setMax", "reset", "fillFrom0", "tieGeneral2", "recip", "zero"]) ∧
+    AITB.Gen.C01.greedyTableSites = ["retvalSA", "rowLoop", "wrapRow", "fillRow", "ret", "bufferIsA"] ∧
+    AITB.Gen.C01.toleranceSites = ["smallAbsLe", "differentIsNotEqual", "generalSmallOrRelMin"] ∧
+    AITB.Gen.C01.makeSites = ["makeQZero", "makeVFZeroActionsS", "bellmanOperatorWrapsInplace"] ∧
     AITB.Gen.C01.piSites = ["eval", "greedyOfQfun", "matrix0", "label", "evalP", "warm", "qfunGetsQ", "newMatrix", "diffSmall", "moveMatrix", "goto", "ret"] := by decide
 
 /-! ## the hypotheses are satisfiable: a concrete non-trivial MDP (2 states, 2 actions, negative reward, self-loop) -/
